@@ -65,6 +65,28 @@ def gen(ctx):
         cancelled = set()
         rid = 0
         for _ in range(rng.choice([2, 5, 9])):
+            if rng.random() < 0.25:
+                # an earlier request on the same connection that failed after the server had already printed part of its output
+                # (alone, or as the first command of a list): nothing of it may leak into the frames of the next list
+                rid += 1
+                sp = L.spec("pfail", str(rng.choice([5, 50])), f"stale{rid}")
+                if rng.random() < 0.5:
+                    labels.append(f"c{rid}:{sp}")
+                    exp[rid] = L.expected_result("c", [sp])
+                    frames.append([L.spec_line(sp).encode()])
+                else:
+                    sp2 = L.spec("echo", "never")
+                    labels.append(f"i{rid}:{sp},{sp2}")
+                    exp[rid] = L.expected_result("i", [sp, sp2])
+                    frames.append([L.spec_line(sp).encode(), L.spec_line(sp2).encode()])
+                labels += rng.choice([[], ["S*"], ["S*", "D0"]])
+                if rng.random() < 0.6:
+                    # ... seen most directly by an untyped list right behind it: its frames are exactly its own commands' output
+                    rid += 1
+                    sps = [L.spec("echo", f"r{rid}", f"c{k}") for k in range(rng.choice([2, 3, 5]))]
+                    labels.append(f"i{rid}:" + ",".join(sps))
+                    exp[rid] = L.expected_result("i", sps)
+                    frames.append([L.spec_line(x).encode() for x in sps])
             rid += 1
             kind = rng.choice("vy")
             n = rng.choice([1, 2, 3, 8]) if kind == "y" else rng.choice([0, 1, 2, 7, 13])
